@@ -94,7 +94,7 @@ theorem pppoe_parse_hdr (hb rest : Bytes) (hl : hb.length = 6) :
   have hsub : (hb ++ rest).length - 6 = rest.length := by simp [hl]
   simp only [h6, if_false, take_append_len _ _ 6 hl, drop_append_len _ _ 6 hl, hsub]
 
-theorem pppoe_ofHeader_headerBytes' (p : PPPoE) (h : p.Inv) : PPPoE.ofHeader p.headerBytes = { p with tags := [], tagsSize := 0 } := by
+theorem pppoe_ofHeader_headerBytes_exact (p : PPPoE) (h : p.Inv) : PPPoE.ofHeader p.headerBytes = { p with tags := [], tagsSize := 0 } := by
   have := pppoe_ofHeader_headerBytes p h []
   rwa [List.append_nil, List.take_of_length_le (by rw [pppoe_headerBytes_length]; exact Nat.le_refl 6)] at this
 
@@ -124,7 +124,7 @@ theorem pppoe_reparse_discovery (cx : Ctx) (p : PPPoE) (h : p.Inv) (hcode : p.co
     simp only [PPPoE.hdr] at hr hw
     refine ⟨_, hw, ?_, ?_⟩
     · simp only [List.length_append, List.length_drop, pppoe_headerBytes_length, hfl]; omega
-    · rw [List.append_assoc, pppoe_parse_hdr _ _ (pppoe_headerBytes_length _), pppoe_ofHeader_headerBytes' _ hinv1]
+    · rw [List.append_assoc, pppoe_parse_hdr _ _ (pppoe_headerBytes_length _), pppoe_ofHeader_headerBytes_exact _ hinv1]
       have hc0 : ((c == 0) = false) := by simpa using hcode
       have hrs : ¬ (tags.flatMap PPPoE.tagBytes ++ region.drop (6 + PPPoE.tagsLen tags)).length < PPPoE.tagsLen tags := by
         simp only [List.length_append, hfl]; omega
@@ -161,7 +161,7 @@ theorem pppoe_reparse_session (cx : Ctx) (p : PPPoE) (h : p.Inv) (hcode : p.code
     simp only [List.flatMap_nil, List.append_nil] at hw
     refine ⟨_, hw, ?_, ?_⟩
     · simp only [List.length_append, List.length_drop, pppoe_headerBytes_length]; omega
-    · rw [List.append_assoc, pppoe_parse_hdr _ _ (pppoe_headerBytes_length _), pppoe_ofHeader_headerBytes' _ hinv1]
+    · rw [List.append_assoc, pppoe_parse_hdr _ _ (pppoe_headerBytes_length _), pppoe_ofHeader_headerBytes_exact _ hinv1]
       have hdl : (region.drop 6).length = cx.innerSize := by simp only [List.length_drop]; omega
       have hrs : ¬ (region.drop 6 ++ junk).length < cx.innerSize := by
         simp only [List.length_append, hdl]; omega
